@@ -17,6 +17,21 @@ CLAIMED = {
                 text="TLC checks the safety core (somebody is always committed to re-inspect a non-empty queue), the quiescent form and the liveness property "
                      "C02_Live under weak fairness; the lost-wake-up window (release/re-check/re-CAS against enqueue/CAS) is replayed on the real code in every "
                      "position of the bounded graph and every replay is run to quiescence where accepted = transmitted = flushed is checked."),
+    "C05": dict(engine="channel", design="3/C05", technique="TLA+ model checking (TLC) of the close/read-loop/serve protocol + replay and trace validation on the real channel",
+                text="TLC checks active-once/before-first-read/before-serve-returns, sequential reads, transport closed once, inactive once with the winning "
+                     "Close's error, closed-after-any-Close-returns and read-loop termination (liveness) for 1-3 concurrent closers (distinct errors, incl. nil), "
+                     "read and write faults, sync and async channels; graph edges are replayed on the real channel with probe handlers and a counting mock transport."),
+    "C06": dict(engine="channel", design="3/C06", technique="TLA+ model checking (TLC) of Close vs sender release window + counterexample/edge-cover replay on the real channel",
+                text="TLC checks C06_Graceful/C06_NoMidBatch in every state and termination of Close under fairness (both wait modes, with and without transport faults); "
+                     "the specification of the unrepaired Close (FixDrain=FALSE) must still produce the release-window counterexample, which is replayed on the current "
+                     "tree each run; the oracle compares what was flushed at the moment of transport.Close with the payloads accepted before Close was invoked."),
+    "C11": dict(engine="channel", design="3/C11", technique="TLA+ model checking (TLC) of all write entry points against Close + replay on the real channel",
+                text="TLC checks C11_FailAfterClose for every entry point (Write, Write1, Writev, CtxWrite1, CtxWritev, Writer) x sync/async x Close(nil|err) x all "
+                     "interleavings with one or two closers; every entry point is additionally exercised after a completed Close many times (both select outcomes); "
+                     "oracle: (n, err) of calls begun after a Close returned, and the transport log."),
+    "C18": dict(engine="channel", design="3/C18", technique="TLA+ model checking (TLC) of queue back-pressure + parked-goroutine observation on the real channel",
+                text="TLC checks never-blocks (non-blocking mode), no-space-only-when-full (action property), the accepted-but-unsent bound, cancel/close-no-bytes and "
+                     "that blocked writers eventually return (liveness); on the real code the scheduler reads goroutine wait states, so 'parked in select' is observed, not timed."),
 }
 NA = {}
 for p in props:
